@@ -29,6 +29,9 @@ checks = {
    text="TLC checks on Builtins.tla the algebraic laws of the statement (DECODE(ENCODE(v,b),b)=v for every scalar and base, HASH a function of its arguments with the algorithm's hex length, FIRST/LAST/ELEMENTAT agreement and out-of-range errors, UNWIND one level, ARRAY, IF, case-map idempotence, string<->double round trip, wrong arity -> error) and enumerates every call of the bounded argument domain; every case is executed against the real library in three spellings (FROM dual, per-row FROM a table, literal arguments) and values / errors / opaque-text shape and purity are compared.",
    tech="TLA+ specification (Builtins.tla, ENCODE/HASH uninterpreted) model-checked with TLC; every exported call replayed through genql.New/Exec",
    note="Exhaustive over the stated finite argument domain. Bit-level fidelity of base64/base32/hex/SHA is outside the specification (uninterpreted); only round trip, purity and length are decided. One known finding (CONCAT renders NULL as <nil>)."),
+ "C20": dict(cat="model_checking", ref="DESIGN.md 4 C20",
+   text="TLC explores Vars.tla - SETVAR / GETVAR as a state machine with one action per call, rows in source order, items left to right, queries of a history sharing the map - and checks in every reachable state that each GETVAR returned the latest preceding SETVAR of its key (else the initial map's value, else NULL), that the map holds the last write per key and that SETVAR adds no column; every terminal behaviour is replayed (rows and the caller's map after every query), and seeded longer histories with logging wrappers around the real functions are validated call by call against VarsTrace.",
+   tech="TLA+ specification (Vars.tla) model-checked with TLC; exported behaviours replayed with a shared vars map; call-level traces of the real SETVAR/GETVAR validated with TLC (VarsTrace)"),
 }
 not_applicable = []
 m = {
